@@ -20,7 +20,9 @@ from concurrent.futures import ThreadPoolExecutor
 
 ROOT = os.path.dirname(os.path.abspath(__file__))
 HARNESS = os.path.join(ROOT, "harness")
-REPO = "/repo"
+# the repository under test; VERIF_REPO lets a background exploration run use a snapshot
+# (the registered checks always run against /repo itself)
+REPO = os.environ.get("VERIF_REPO", "/repo")
 EVID = os.path.join(ROOT, "evidence")
 REPLAYS = os.path.join(ROOT, "replays")
 KNOWN = os.path.join(ROOT, "known_findings.json")
@@ -44,6 +46,16 @@ def sync_lock():
     dst = os.path.join(HARNESS, "Cargo.lock")
     if not os.path.exists(dst) and os.path.exists(src):
         shutil.copyfile(src, dst)
+    # the path dependency of the harness crate points at REPO
+    toml = os.path.join(HARNESS, "Cargo.toml")
+    with open(toml) as f:
+        text = f.read()
+    want = 'seq_io = { path = "%s", features = ["verif_hooks"] }' % REPO
+    lines = [want if l.startswith("seq_io = {") else l for l in text.splitlines()]
+    new = "\n".join(lines) + "\n"
+    if new != text:
+        with open(toml, "w") as f:
+            f.write(new)
 
 
 def cargo(args, target_dir=None, env_extra=None, toolchain=None, timeout=1800):
@@ -338,9 +350,10 @@ def run_tiers(prop, tier, seed, budget, cfg, t0):
                 merged["counters"][k] = max(merged["counters"].get(k, 0), v)
             elif k != "distinct_interleaving_fingerprints":
                 merged["counters"][k] = merged["counters"].get(k, 0) + v
-        for k, v in mm["maps"].get("violation_signatures", {}).items():
-            d = merged["maps"].setdefault("violation_signatures", {})
-            d[k] = d.get(k, 0) + v
+        for name, mp in mm["maps"].items():
+            d = merged["maps"].setdefault(name, {})
+            for k, v in mp.items():
+                d[k] = d.get(k, 0) + v
     if tier == "thorough" and cfg.get("tsan"):
         info, viol, tp = run_tsan_slice(prop, seed, cfg)
         extra["tsan"] = info
